@@ -120,13 +120,15 @@ class Run:
 
     def read(self, v):
         k = key(v)
+        t = self.decl_types.get(k)
+        if t in ("sigin", "sigout", "sigint"):
+            # every signal is an independent indeterminate (property C07), whatever was assigned to it;
+            # no constant is ever claimed for a signal, so this over-approximates the executions for C06
+            return self.inputs.get(("sig", v[1]), 0)
         if k in self.store:
             return self.store[k]
-        t = self.decl_types.get(k)
         if t == "local":
             return 0           # Circom: an unassigned variable is 0
-        if t == "sigin":
-            return self.inputs.get(("sig", v[1]), 0)
         return UNK
 
     def note(self, pos, value, know):
